@@ -737,6 +737,11 @@ func (x *c03) dischargeIndex(f *ssa.Function, in ssa.Instruction, base, idx ssa.
 		if g := lenGuardGE(in, base, func(v ssa.Value) bool { kk, ok := flow.ConstInt(v); return ok && kk > k }); g != "" {
 			return fmt.Sprintf("G5: constant index %d under the dominating guard %s", k, g), ""
 		}
+		if pp, ok := base.(*ssa.Parameter); ok {
+			if why := x.paramLenAtCallers(f, pp, k+1, 0); why != "" {
+				return why, ""
+			}
+		}
 		// G9: index into a phi of non-empty constant strings
 		if ph, ok := base.(*ssa.Phi); ok {
 			okAll := true
@@ -1782,6 +1787,14 @@ func (x *c03) structural(comp []*ssa.Function, set map[*ssa.Function]bool) bool 
 					if spilledParam(a) != nil {
 						continue
 					}
+					// an element of a list handed in as a parameter: not above the caller's own level
+					if u, ok := flow.Peel(a).(*ssa.UnOp); ok && u.Op == token.MUL {
+						if ia, ok := u.X.(*ssa.IndexAddr); ok {
+							if _, isP := flow.Peel(ia.X).(*ssa.Parameter); isP {
+								continue
+							}
+						}
+					}
 					same = false
 				}
 			}
@@ -1919,6 +1932,26 @@ func (x *c03) paramLenAtCallers(f *ssa.Function, p *ssa.Parameter, need int64, d
 			if why := lenGuardGE(ci, arg, func(k ssa.Value) bool { kk, ok := flow.ConstInt(k); return ok && kk >= need }); why != "" {
 				desc = why + " in " + g.Name()
 				continue
+			}
+			// a slice of constant length: x[a:b] with constants, or make([]byte, K)
+			if n, ok := sliceConstLen(arg); ok && n >= need {
+				desc = fmt.Sprintf("constant-length slice [%d bytes] in %s", n, g.Name())
+				continue
+			}
+			if mk, ok := arg.(*ssa.MakeSlice); ok {
+				if n, ok := flow.ConstInt(mk.Len); ok && n >= need {
+					desc = fmt.Sprintf("make([]byte, %d) in %s", n, g.Name())
+					continue
+				}
+			}
+			if sl, ok := arg.(*ssa.Slice); ok {
+				// whole-array slice new([K]byte)[:]
+				if al, ok := sl.X.(*ssa.Alloc); ok && sl.Low == nil && sl.High == nil {
+					if at, ok := al.Type().Underlying().(*types.Pointer).Elem().Underlying().(*types.Array); ok && at.Len() >= need {
+						desc = fmt.Sprintf("array of %d bytes in %s", at.Len(), g.Name())
+						continue
+					}
+				}
 			}
 			if ap, ok := arg.(*ssa.Parameter); ok {
 				if why := x.paramLenAtCallers(g, ap, need, depth+1); why != "" {
